@@ -135,6 +135,39 @@ def make_run_script(rng, name, kind=None):
     lines.append("titer")
     return f"=== {name} plan={plan} nkeys={n + 6}\n" + "\n".join(lines) + "\n"
 
+def make_many_script(rng, name, kind=None):
+    """C15: get_many_mut on small and medium tables whose elements share a tag (so that a lookup under
+    ANOTHER element's hash reaches them), with closures from exact (id) to sloppy (value classes,
+    always-true): 0..4 requests, repeated / adjacent / non-adjacent duplicates, absent hashes."""
+    kind = kind or rng.choice(["table-drop", "table-plain", "table-200", "table-a64"])
+    plan = rng.choice(["sametag", "sametag", "zero", "twotags", "lowpos", "mix"])
+    n = rng.choice([1, 2, 3, 5, 8, 13, 20])
+    salt = rng.getrandbits(32)
+    lines = [f"kind {kind}"] + [f"hash {k} {plan_hash(plan, k, rng, salt)}" for k in range(n + 8)]
+    stamp = 0
+    for k in range(n):
+        stamp += 1
+        lines.append(f"tinsertunique {k} {stamp} {rng.randrange(10)}")
+    def pred(k):
+        x = rng.random()
+        if x < 0.4: return f"id {k}"
+        if x < 0.7: return "valmod 1 0"                      # |_| true
+        m = rng.choice([2, 3]); return f"valmod {m} {rng.randrange(m)}"
+    for _ in range(rng.choice([10, 20, 40])):
+        cnt = rng.choice([0, 1, 2, 2, 3, 3, 4, 4])
+        base = [rng.randrange(n + 3) for _ in range(cnt)]
+        shape = rng.random()
+        if cnt >= 2 and shape < 0.25: base[-1] = base[0]          # non-adjacent (or adjacent for 2) repeat
+        elif cnt >= 3 and shape < 0.4: base[1] = base[0]          # adjacent repeat
+        elif cnt >= 4 and shape < 0.5: base[3] = base[1]
+        reqs = [f"{k} {pred(k)}" for k in base]
+        lines.append(f"tgetmanymut {rng.randrange(4)} {cnt} " + " ".join(reqs))
+        if rng.random() < 0.2:
+            k = rng.randrange(n + 3)
+            stamp += 1
+            lines.append(rng.choice([f"tfindentryremove {k} id {k}", f"tinsertunique {k} {stamp} {rng.randrange(10)}", "titer"]))
+    return f"=== {name} plan={plan} nkeys={n + 6}\n" + "\n".join(lines) + "\n"
+
 def make_removal_script(rng, name, kind=None):
     """C10 for HashTable: retain / extract_if / drain on collision runs, then refill and observe."""
     kind = kind or rng.choice(["table-drop", "table-plain", "table-200"])
